@@ -62,7 +62,7 @@ macro_rules! c03_fisher {
 //@ besteffort: yes
 //@ prop: C03
 //@ tier: thorough
-//@ cap: 3600
+//@ cap: 1500
 //@ funcs: FisherF::<f32>::new; FisherF::<f32>::sample; ChiSquared::sample; Gamma::sample
 //@ bounds: m, n in (2, 1e6]; each chi-squared draw accepted within the 4-word budget
 //@ assumes: utils::ziggurat, libm by contract
